@@ -1,15 +1,25 @@
 // c18: conformance harness for specs/PromExport (property C18). See core.go.
 //
-//	c18 probe  -scheme S                        ad-hoc experiments (development aid)
+//	c18 replay -scheme S -edges F -consts C -out TRACE -res R   replay TLC scenarios (EDGE {path, act}) on a real exporter
+//	c18 random -scheme S -n N -out TRACE -res R                 seeded random scenarios -> ndjson trace for TLC
+//	c18 conc   -scheme S -n N -out TRACE -res R                 scrapers || recorders -> ndjson trace for TLC
+//	c18 probe  -scheme S                                        ad-hoc experiments (development aid)
+//
+// The harness only executes and projects: every judgement is made by Trace_PromExport.tla.
+// model.NameValidationScheme is process-global: one process per scheme.
 package main
 
 import (
+	"bufio"
+	"bytes"
 	"encoding/json"
 	"flag"
 	"fmt"
 	"os"
 
 	"github.com/prometheus/common/model"
+
+	"go.opentelemetry.io/otel/sdk/verifh/vh"
 )
 
 var (
@@ -19,7 +29,7 @@ var (
 
 func commonFlags(fs *flag.FlagSet) {
 	fs.StringVar(scheme, "scheme", "utf8", "legacy|utf8 (process-global model.NameValidationScheme)")
-	fs.IntVar(expoMaxScale, "exposcale", 20, "MaxScale of exponential histogram views")
+	fs.IntVar(expoMaxScale, "exposcale", 20, "MaxScale of exponential histogram views (replay/probe)")
 }
 
 func applyScheme() {
@@ -34,74 +44,200 @@ func applyScheme() {
 	}
 }
 
-func w(s string) Tok   { return Tok{C: "w", S: s} }
-func sep(s string) Tok { return Tok{C: "sep", S: s} }
+// ---------------------------------------------------------------- scenarios
 
-func probe(args []string) {
-	fs := flag.NewFlagSet("probe", flag.ExitOnError)
-	commonFlags(fs)
-	fs.Parse(args)
-	applyScheme()
-	res := []Attr{{K: []Tok{w("service"), sep("."), w("name")}, T: "s", V: "svc"}}
-	show := func(title string, o Opts, insts []Inst, recs func(wd *world)) {
-		o.Scheme = *scheme
-		wd, err := newWorld(o, res)
-		if err != nil {
-			fmt.Println(title, "ERR", err)
-			return
+// Op is one abstract operation (PromExport.tla actions).
+type Op struct {
+	Op   string          `json:"op"`
+	Opts *Opts           `json:"opts,omitempty"`
+	Inst json.RawMessage `json:"inst,omitempty"` // Create: instrument record; Rec: instrument id
+	AS   int             `json:"as,omitempty"`
+	V    float64         `json:"v,omitempty"`
+
+	inst Inst
+	id   int
+}
+
+func (o *Op) decode() error {
+	switch o.Op {
+	case "Create":
+		return json.Unmarshal(o.Inst, &o.inst)
+	case "Rec":
+		return json.Unmarshal(o.Inst, &o.id)
+	}
+	return nil
+}
+
+type Scenario struct {
+	ID       string
+	Res      []Attr
+	ASes     [][]Attr
+	Ops      []Op
+	MaxScale int
+}
+
+var boundsText = []string{fmtF(histBounds[0]), fmtF(histBounds[1])}
+
+// runScenario executes a scenario on a real exporter + provider and writes the trace lines.
+func runScenario(sc *Scenario, tw *vh.TraceWriter, res *vh.Result) {
+	var wd *world
+	created := []Inst{}
+	defer func() {
+		if wd != nil {
+			wd.close()
 		}
-		for _, in := range insts {
-			if err := wd.create(in); err != nil {
-				fmt.Println(title, "create err", err)
+	}()
+	for i := range sc.Ops {
+		op := &sc.Ops[i]
+		switch op.Op {
+		case "New":
+			var err error
+			wd, err = newWorld(*op.Opts, sc.Res)
+			if err != nil {
+				res.Inconcl(fmt.Sprintf("%s: New: %v", sc.ID, err))
+				return
+			}
+			wd.maxScale = sc.MaxScale
+			tw.Emit(map[string]any{"ev": "New", "sc": sc.ID, "opts": op.Opts, "res": sc.Res, "ases": sc.ASes, "bounds": boundsText})
+		case "Create":
+			if err := wd.create(op.inst); err != nil {
+				// the property quantifies over valid instruments: an SDK rejection is a generator bug
+				res.Inconcl(fmt.Sprintf("%s: Create %q: %v", sc.ID, render(op.inst.Toks), err))
+				return
+			}
+			created = append(created, op.inst)
+		case "Rec":
+			wd.record(op.id, op.AS, sc.ASes[op.AS-1], op.V)
+			res.Evaluations++
+		case "Scrape":
+			streams, err := wd.sdkView()
+			if err != nil {
+				res.Inconcl(fmt.Sprintf("%s: Reader.Collect: %v", sc.ID, err))
+				return
+			}
+			tw.Emit(map[string]any{"ev": "Env", "sc": sc.ID, "insts": created, "streams": streams})
+			o := wd.collectObs()
+			tw.Emit(map[string]any{"ev": "Scrape", "sc": sc.ID, "via": "collect", "obs": o})
+			res.Count("scrapes", 1)
+			countObs(res, streams, o)
+			if o.Panic == "" {
+				o2 := wd.gatherObs()
+				tw.Emit(map[string]any{"ev": "Scrape", "sc": sc.ID, "via": "gather", "obs": o2})
+				res.Count("scrapes", 1)
 			}
 		}
-		recs(wd)
-		ob := wd.scrape()
-		b, _ := json.Marshal(ob)
-		sv, _ := wd.sdkView()
-		sb, _ := json.Marshal(sv)
-		fmt.Printf("== %s\n  obs: %s\n  sdk: %s\n  errs: %v\n", title, b, sb, wd.errs)
-		wd.close()
 	}
-	one := func(title string, toks []Tok, unit, kind string) {
-		show(title, Opts{}, []Inst{{ID: 1, Scope: "sA", Toks: toks, Unit: unit, Kind: kind, Desc: "d"}}, func(wd *world) { wd.record(1, nil, 1) })
+	res.Executed++
+}
+
+// countObs: regime counters (vacuity evidence only, no judgement).
+func countObs(res *vh.Result, streams []SStream, o Obs) {
+	if o.Panic != "" {
+		res.Count("scrape-panicked", 1)
 	}
-	one("counter total", []Tok{{C: "total", S: "total"}}, "", "counter")
-	one("counter subtotal", []Tok{w("sub"), {C: "total", S: "total"}}, "", "counter")
-	one("counter foo.total s", []Tok{w("foo"), sep("."), {C: "total", S: "total"}}, "s", "counter")
-	one("gauge milliseconds unit s", []Tok{w("lat"), sep("_"), {C: "u", S: "milliseconds"}}, "s", "gauge")
-	one("exphist", []Tok{w("eh")}, "", "exphist")
-	show("attr colon", Opts{}, []Inst{{ID: 1, Scope: "sA", Toks: []Tok{w("foo")}, Kind: "counter"}}, func(wd *world) {
-		wd.record(1, []Attr{{K: []Tok{w("a"), {C: "bad", S: ":"}, w("b")}, T: "s", V: "x"}}, 1)
-	})
-	show("attr otel_scope_name", Opts{}, []Inst{{ID: 1, Scope: "sA", Toks: []Tok{w("foo")}, Kind: "counter"}}, func(wd *world) {
-		wd.record(1, []Attr{{K: []Tok{w("otel"), sep("_"), w("scope"), sep("_"), w("name")}, T: "s", V: "x"}}, 1)
-	})
-	show("attr collide", Opts{}, []Inst{{ID: 1, Scope: "sA", Toks: []Tok{w("foo")}, Kind: "counter"}}, func(wd *world) {
-		wd.record(1, []Attr{{K: []Tok{w("a"), sep("."), w("b")}, T: "s", V: "z"}, {K: []Tok{w("a"), sep("_"), w("b")}, T: "s", V: "y"}}, 1)
-	})
-	show("help conflict empty first", Opts{}, []Inst{
-		{ID: 1, Scope: "sA", Toks: []Tok{w("foo")}, Kind: "counter", Desc: ""},
-		{ID: 2, Scope: "sA", Toks: []Tok{w("foo"), sep("_"), {C: "total", S: "total"}}, Kind: "counter", Desc: "d2"}},
-		func(wd *world) { wd.record(1, nil, 1); wd.record(2, nil, 1) })
-	show("help conflict", Opts{}, []Inst{
-		{ID: 1, Scope: "sA", Toks: []Tok{w("foo")}, Kind: "counter", Desc: "d1"},
-		{ID: 2, Scope: "sA", Toks: []Tok{w("foo"), sep("_"), {C: "total", S: "total"}}, Kind: "counter", Desc: "d2"}},
-		func(wd *world) { wd.record(1, nil, 1); wd.record(2, nil, 1) })
-	show("type conflict", Opts{}, []Inst{
-		{ID: 1, Scope: "sA", Toks: []Tok{w("foo")}, Kind: "counter", Desc: "d1"},
-		{ID: 2, Scope: "sA", Toks: []Tok{w("foo"), sep("_"), {C: "total", S: "total"}}, Kind: "gauge", Desc: "d1"}},
-		func(wd *world) { wd.record(1, nil, 1); wd.record(2, nil, 1) })
-	show("hist", Opts{ResConst: true, ResKeys: []int{1}}, []Inst{{ID: 1, Scope: "sA", Toks: []Tok{w("h")}, Unit: "s", Kind: "hist", Desc: "d"}},
-		func(wd *world) { wd.record(1, nil, 1); wd.record(1, nil, 7); wd.record(1, nil, 12) })
+	if o.GatherErr != "" {
+		res.Count("registry-error", 1)
+	}
+	nser := 0
+	for _, f := range o.Fams {
+		nser += len(f.Series)
+		for _, s := range f.Series {
+			if s.Native {
+				res.Count("native-histogram-series", 1)
+			}
+			for _, l := range s.Labels {
+				if bytes.ContainsRune([]byte(l[1]), ';') {
+					res.Count("merged-label-values", 1)
+					break
+				}
+			}
+		}
+	}
+	npts := 0
+	for _, st := range streams {
+		npts += len(st.Points)
+		res.Count("sdk-stream-"+st.Data, 1)
+	}
+	res.Count("sdk-points", int64(npts))
+	res.Count("exposed-series", int64(nser))
+}
+
+// ---------------------------------------------------------------- replay of TLC scenarios
+
+type edge struct {
+	Path []Op `json:"path"`
+	Act  Op   `json:"act"`
+}
+
+type consts struct {
+	Res  []Attr   `json:"res"`
+	ASes [][]Attr `json:"ases"`
+}
+
+func replay(args []string) {
+	fs := flag.NewFlagSet("replay", flag.ExitOnError)
+	commonFlags(fs)
+	edgesF := fs.String("edges", "", "ndjson of EDGE {path, act} records (scrape edges)")
+	constsF := fs.String("consts", "", "json {res, ases}: the constants of the TLC configuration")
+	outF := fs.String("out", "trace.ndjson", "")
+	resF := fs.String("res", "replay.json", "")
+	tag := fs.String("tag", "e", "scenario id prefix")
+	fs.Parse(args)
+	applyScheme()
+	var c consts
+	b, err := os.ReadFile(*constsF)
+	vh.Must(err)
+	vh.Must(json.Unmarshal(b, &c))
+	f, err := os.Open(*edgesF)
+	vh.Must(err)
+	defer f.Close()
+	tw, err := vh.NewTraceWriter(*outF)
+	vh.Must(err)
+	res := vh.NewResult()
+	scn := bufio.NewScanner(f)
+	scn.Buffer(make([]byte, 1<<20), 1<<28)
+	n := 0
+	for scn.Scan() {
+		line := bytes.TrimSpace(scn.Bytes())
+		if len(line) == 0 {
+			continue
+		}
+		n++
+		var e edge
+		vh.Must(json.Unmarshal(line, &e))
+		ops := append(e.Path, e.Act)
+		if len(ops) == 0 || ops[0].Op != "New" || ops[0].Opts == nil {
+			vh.Must(fmt.Errorf("edge %d does not start with New", n))
+		}
+		if ops[0].Opts.Scheme != *scheme {
+			continue // the other process replays it
+		}
+		for i := range ops {
+			vh.Must(ops[i].decode())
+		}
+		sc := &Scenario{ID: fmt.Sprintf("%s%d", *tag, n), Res: c.Res, ASes: c.ASes, Ops: ops, MaxScale: *expoMaxScale}
+		runScenario(sc, tw, res)
+		if res.Executed <= 2 {
+			res.Sample(map[string]any{"scenario": sc.ID, "ops": ops})
+		}
+	}
+	vh.Must(scn.Err())
+	vh.Must(tw.Close())
+	vh.Must(res.Write(*resF))
 }
 
 func main() {
 	if len(os.Args) < 2 {
-		fmt.Println("usage: c18 probe|replay|random|conc ...")
+		fmt.Println("usage: c18 replay|random|conc|probe ...")
 		os.Exit(3)
 	}
 	switch os.Args[1] {
+	case "replay":
+		replay(os.Args[2:])
+	case "random":
+		random(os.Args[2:])
+	case "conc":
+		conc(os.Args[2:])
 	case "probe":
 		probe(os.Args[2:])
 	default:
